@@ -7,9 +7,9 @@ V = os.path.dirname(os.path.dirname(os.path.abspath(__file__)))
 args = [a for a in sys.argv[1:] if not a.startswith('-')]
 jobs = int(sys.argv[sys.argv.index('-j') + 1]) if '-j' in sys.argv else 3
 args = [a for a in args if not a.isdigit()]
-seeds = sorted(d for d in glob.glob(V + '/seeded/C*_*') + glob.glob(V + '/seeded2/C*_*') + glob.glob(V + '/seeded3/C*_*') if os.path.exists(d + '/patch.diff'))
+seeds = sorted(d for d in glob.glob(V + '/seeded/C*_*') + glob.glob(V + '/seeded2/C*_*') + glob.glob(V + '/seeded3/C*_*') + glob.glob(V + '/seeded4/C*_*') if os.path.exists(d + '/patch.diff'))
 if args:
-    seeds = [d for d in seeds if os.path.basename(d).split('_')[0] in args or (os.path.basename(d) in args and '/seeded/' in d) or ('w2' in args and '/seeded2/' in d) or ('w3' in args and '/seeded3/' in d) or ('/seeded3/' in d and os.path.basename(d) + '_w3' in args) or ('/seeded2/' in d and os.path.basename(d) + '_w2' in args)]
+    seeds = [d for d in seeds if os.path.basename(d).split('_')[0] in args or (os.path.basename(d) in args and '/seeded/' in d) or ('w2' in args and '/seeded2/' in d) or ('w3' in args and '/seeded3/' in d) or ('w4' in args and '/seeded4/' in d) or ('/seeded4/' in d and os.path.basename(d) + '_w4' in args) or ('/seeded3/' in d and os.path.basename(d) + '_w3' in args) or ('/seeded2/' in d and os.path.basename(d) + '_w2' in args)]
 prev = {}
 mp = V + '/seeded/MATRIX.json'
 if os.path.exists(mp):
@@ -28,6 +28,8 @@ def run(d):
         sid = sid + '_w2'
     if '/seeded3/' in d:
         sid = sid + '_w3'   # hold-out wave: produced after the last change to the machinery
+    if '/seeded4/' in d:
+        sid = sid + '_w4'   # second hold-out wave (C05, C11, C19)
     meta = json.load(open(d + '/meta.json')) if os.path.exists(d + '/meta.json') else {}
     conf = json.load(open(d + '/confirm.json')).get('confirmed') if os.path.exists(d + '/confirm.json') else None
     r = dict(seed=sid, property=pid, summary=(meta.get('summary') or '')[:200], files=meta.get('files_changed'), confirmed=conf)
